@@ -77,7 +77,7 @@ def run(ctx):
     rnd = ctx.rnd
     ctx.rule = ("exhaustive one-cell-at-a-time: every cell of every row of four base CIDs (all formats, all 8 field types, both checks, all properties) replaced in "
                 "turn by each of %d hostile values; the same pool in every cell of a valid data row (yield mode and validate); pairs of hostile cells in the thorough "
-                "tier; the same pool in every cell of a fixed-width record (all field types); DistinctCount rules whose evaluation fails only for particular counts x 0-4 distinct values x 3 APIs; text containers (delimited and fixed-width files) with undecodable bytes / unterminated quote / short record / NUL / wrong delimiter; the command line on the hostile CIDs; observable: class of "
+                "tier; the same pool in every cell of a fixed-width record (all field types); DistinctCount rules whose evaluation fails only for particular counts x 0-4 distinct values x 3 APIs; date-formatted Excel cells xlrd refuses; xlsx and ods archives damaged at byte level (flip / zero / cut / delete / duplicate at seeded offsets); text containers (delimited and fixed-width files) with undecodable bytes / unterminated quote / short record / NUL / wrong delimiter; the command line on the hostile CIDs; observable: class of "
                 "whatever escapes; distinct = distinct (CID or data, position, value); non-trivial = every case" % len(HOSTILE))
     ctx.exhaustive = True
     ctx.level = "fault_enumeration"
@@ -231,6 +231,104 @@ def run(ctx):
                     ctx.count(key=("container-fixed", name, mode, api), branch="container-fixed:%s" % tag)
                     if tag != "ok" and not core.is_cutplace_tag(tag):
                         ctx.violation("C10:container-fixed:%s:%s" % (name, tag), "fixed-width container fault %s in mode %s (%s) raises %s" % (name, mode, api, tag), {"fault": name, "mode": mode, "api": api})
+        # ---- spreadsheet containers: cells the reader's library refuses, archives damaged at byte level ----------------------
+        import datetime
+        import random
+        import xlsxwriter
+        import ods_enc
+        from cutplace import rowio
+
+        def read_container(reader, path):
+            try:
+                list(reader(path))
+                return "ok"
+            except Exception as error:  # noqa
+                return core.classify_exception(error)
+
+        # date-formatted cells whose serial number xlrd cannot turn into a date
+        for serial in (1, 30, 59, 60, -1, -5.5, 0.5, 2958465, 2958466, 3000000, 1e10, 1e300):
+            xpath = os.path.join(tmp, "dates.xlsx")
+            wb = xlsxwriter.Workbook(xpath)
+            ws = wb.add_worksheet()
+            ws.write_number(0, 0, serial, wb.add_format({"num_format": "yyyy-mm-dd hh:mm:ss"}))
+            ws.write_string(0, 1, "x")
+            wb.close()
+            tag = read_container(rowio.excel_rows, xpath)
+            ctx.count(key=("excel-date-serial", serial), branch="excel-date:%s" % tag)
+            if tag != "ok" and not core.is_cutplace_tag(tag):
+                ctx.violation("C10:excel-cell:date-serial:%s" % tag, "Excel date cell with serial number %r makes excel_rows raise %s" % (serial, tag), {"serial": serial})
+        # byte-level damage
+        xpath = os.path.join(tmp, "good.xlsx")
+        wb = xlsxwriter.Workbook(xpath)
+        ws = wb.add_worksheet()
+        for r_ in range(4):
+            ws.write_string(r_, 0, "text%d" % r_)
+            ws.write_number(r_, 1, r_ + 0.5)
+            ws.write_datetime(r_, 2, datetime.datetime(2024, 2, 26 + r_, 12, 0, r_), wb.add_format({"num_format": "yyyy-mm-dd hh:mm:ss"}))
+        wb.close()
+        opath = os.path.join(tmp, "good.ods")
+        ods_enc.write_ods(opath, ods_enc.encode_doc({"colRuns": True, "rowRuns": False, "whitespace": False, "spans": False, "paragraphs": False},
+                                                    [[["a", "a", "b"], ["1", "", ""], ["x", "y", "z"]]]))
+        rnd_bytes = random.Random(ctx.seed * 7919 + 11)
+        n_damage = 150 if ctx.tier == "quick" else 2500
+        for kind, good_path, reader in (("xlsx", xpath, rowio.excel_rows), ("ods", opath, rowio.ods_rows)):
+            blob = open(good_path, "rb").read()
+            for k in range(n_damage):
+                how = rnd_bytes.choice(["flip", "flip", "zero", "cut", "delete", "duplicate"])
+                at = rnd_bytes.randrange(len(blob))
+                n_ = rnd_bytes.choice([1, 2, 4, 16, 64, 300])
+                if how == "flip":
+                    bad = blob[:at] + bytes([blob[at] ^ (1 << rnd_bytes.randrange(8))]) + blob[at + 1:]
+                elif how == "zero":
+                    bad = blob[:at] + b"\x00" * min(n_, len(blob) - at) + blob[at + n_:]
+                elif how == "cut":
+                    bad = blob[:at]
+                elif how == "delete":
+                    bad = blob[:at] + blob[at + n_:]
+                else:
+                    bad = blob[:at] + blob[at:at + n_] + blob[at:]
+                bpath = os.path.join(tmp, "damaged." + kind)
+                with open(bpath, "wb") as f:
+                    f.write(bad)
+                tag = read_container(reader, bpath)
+                ctx.count(key=("damaged", kind, how, at, n_), branch="damaged-%s:%s" % (kind, "ok" if tag == "ok" else ("cutplace" if core.is_cutplace_tag(tag) else tag)))
+                if tag != "ok" and not core.is_cutplace_tag(tag):
+                    ctx.violation("C10:damaged-%s:%s" % (kind, tag), "%s archive damaged by %s of %d byte(s) at offset %d makes the reader raise %s" % (kind, how, n_, at, tag),
+                                  {"kind": kind, "how": how, "at": at, "n": n_})
+        # content.xml that declares an encoding the XML parser cannot use
+        import zipfile
+        with zipfile.ZipFile(opath) as z:
+            content_text = z.read("content.xml").decode("utf-8")
+        content_body = content_text.split("?>", 1)[1] if content_text.startswith("<?xml") else content_text
+        for enc_name in ("no-such-encoding", "Shift_JIS", "Big5", "rot13", "undefined", "utf-7", "hex", "idna", ""):
+            bpath = os.path.join(tmp, "declared.ods")
+            with zipfile.ZipFile(bpath, "w") as z:
+                z.writestr("mimetype", "application/vnd.oasis.opendocument.spreadsheet")
+                z.writestr("content.xml", ('<?xml version="1.0" encoding="%s"?>' % enc_name + content_body).encode("ascii", "xmlcharrefreplace"))
+            for api in ("rows", "validate", "cli"):
+                if api == "rows":
+                    tag = read_container(rowio.ods_rows, bpath)
+                else:
+                    ods_cid = interface.Cid()
+                    ods_cid.read("c10-ods", [["D", "Format", "ODS"], ["F", "a"], ["F", "b", "", "X"], ["F", "c", "", "X"]])
+                    if api == "validate":
+                        try:
+                            validio.validate(ods_cid, bpath)
+                            tag = "ok"
+                        except Exception as error:  # noqa
+                            tag = core.classify_exception(error)
+                    else:
+                        ods_cid_path = os.path.join(tmp, "ods_cid.csv")
+                        with open(ods_cid_path, "w") as f:
+                            f.write("D,Format,ODS\nF,a\nF,b,,X\nF,c,,X\n")
+                        try:
+                            code = applications.main(["cutplace", ods_cid_path, bpath])
+                        except SystemExit as error:
+                            code = error.code
+                        tag = "exn:exit4" if code == 4 else "ok"
+                ctx.count(key=("declared-encoding", enc_name, api), branch="declared-encoding:%s" % ("ok" if tag == "ok" else ("cutplace" if core.is_cutplace_tag(tag) else tag)))
+                if tag != "ok" and not core.is_cutplace_tag(tag):
+                    ctx.violation("C10:ods-declared-encoding:%s" % tag, "content.xml declaring encoding %r: %s gives %s" % (enc_name, api, tag), {"encoding": enc_name, "api": api})
         # ---- the command line never answers CID / data problems with 4 ------------------------------------------------
         data_path = os.path.join(tmp, "data.csv")
         with open(data_path, "w") as f:
